@@ -11,6 +11,8 @@
               {"vname": "rm_predecessor", "defines": ["-DV_RMKEY=\"b\"", "-DV_PRED"]},
               {"vname": "compose_succ", "defines": ["-DV_RMKEY=\"d\"", "-DV_COMPOSE", "-DV_SUCC"],
                "bound": "skiplist with keys a < b < c < d present (level 0), iterator parked on c; THREE real operations: skiplist_rm(c), skiplist_rm(d), skiplist_iter_next; symbolic values"},
+              {"vname": "compose_succ_pred_parked", "defines": ["-DV_RMKEY=\"d\"", "-DV_COMPOSE", "-DV_SUCC", "-DV_PRED_PARKED"],
+               "bound": "skiplist with keys a < b < c < d present (level 0), one iterator parked on c and another one on its predecessor b; THREE real operations: skiplist_rm(c), skiplist_rm(d), skiplist_iter_next of the iterator on c; symbolic values"},
               {"vname": "compose_first", "defines": ["-DV_RMKEY=\"a\"", "-DV_COMPOSE"],
                "bound": "skiplist with keys a < b < c < d present (level 0), iterator parked on c; THREE real operations: skiplist_rm(c), skiplist_rm(a), skiplist_iter_next; symbolic values"},
               {"vname": "rm_successor_at_head", "defines": ["-DV_RMKEY=\"b\"", "-DV_HEAD"],
@@ -68,7 +70,11 @@ void harness(void)
 	void *va = verif_value_new(), *vb = verif_value_new(), *vc = verif_value_new(), *vd = verif_value_new();
 	struct skiplist_node *h = sl_node(NULL, NULL, SKIPLIST_LEVEL_MAX, 1, 1);
 	struct skiplist_node *a = sl_node("a", va, 0, 1, 1);
+#ifdef V_PRED_PARKED
+	struct skiplist_node *b = sl_node("b", vb, 0, 2, 1);   /* a second iterator is parked on the predecessor (seed C18-m3) */
+#else
 	struct skiplist_node *b = sl_node("b", vb, 0, 1, 1);
+#endif
 #ifdef V_COMPOSE
 	struct skiplist_node *c = sl_node("c", vc, 0, 2, 1);                        /* present, one iterator parked on it */
 #else
